@@ -12,12 +12,12 @@ import PikoModel.Upstream.LB
 * `forwardReq` is what `ServeHTTPWithUpstream` + `httputil.ReverseProxy` send to the chosen
   node: same `Host`, same path, `x-piko-forward: true` set on the inbound header map, then the
   hop-by-hop removal of `net/http/httputil` (`removeHopByHopHeaders`, which runs *after* the
-  header was set) deletes every header named in the client's `Connection` header.
+  header was set) deletes every header named in the client's `Connection` header - which is
+  why `removeConnectionOptions` (repair 1c64d44) first takes the piko names out of it.
 * `routeAt` follows the request from the entry node: `NodeUpstream.Dial` connects to the
   `ProxyAddr` **of the row in the forwarding node's view**; `World.listen` says which node
   (if any) really listens there.  It is fuel-bounded recursion; the theorems show that the
-  recursion ends by itself after at most two handler invocations (three for a request whose
-  `Connection` header names `x-piko-forward`, finding F-HBH).
+  recursion ends by itself after at most two handler invocations.
 
 Choices of Go's map iteration in `LookupEndpoint` are the `choices : List Nat` parameter
 (index into `lookupCandidates`), universally quantified in the theorems.  Core Lean only.
@@ -82,26 +82,28 @@ def endpointOf (lib : Lib) (r : Req) : Option String :=
 /-- `forwarded := r.Header.Get("x-piko-forward") == "true"` (both proxies) -/
 def Req.forwarded (r : Req) : Bool := r.fwdHeader == some "true"
 
-/-- The request `ServeHTTPWithUpstream` sends on: `r.Header.Set("x-piko-forward", "true")`,
-then `ReverseProxy.ServeHTTP` clones it, leaves `Host` and the path alone (the `Director` only
-sets `URL.Scheme/Host`), and removes the hop-by-hop headers: every header named in
-`Connection`, and `Connection` itself (re-added as `Upgrade` for websockets, which names
-neither piko header). -/
-def forwardReq (r : Req) : Req :=
+/-- `removeConnectionOptions(r.Header, "x-piko-forward", "x-piko-endpoint")` (repair 1c64d44):
+the two piko header names are deleted from the options listed in `Connection`. -/
+def removeConnectionOptions (conn : List String) : List String :=
+  conn.filter (fun t => !(t == fwdName) && !(t == epName))
+
+/-- `r.Header.Set("x-piko-forward", "true")` followed by `ReverseProxy.ServeHTTP`: the request
+is cloned, `Host` and the path are left alone (the `Director` only sets `URL.Scheme/Host`),
+and `removeHopByHopHeaders` deletes every header named by the `Connection` options `conn`,
+and `Connection` itself (re-added as `Upgrade` for websockets, which names neither piko
+header).  Note the order: the removal runs *after* the marker was set. -/
+def proxySend (conn : List String) (r : Req) : Req :=
   { r with
-    fwdHeader := if r.conn.contains fwdName then none else some "true",
-    epHeader := if r.conn.contains epName then none else r.epHeader,
+    fwdHeader := if conn.contains fwdName then none else some "true",
+    epHeader := if conn.contains epName then none else r.epHeader,
     conn := [] }
 
-/-- the client's `Connection` header does not name `x-piko-forward` -/
-def Req.keepsForward (r : Req) : Bool := !r.conn.contains fwdName
+/-- the request `ServeHTTPWithUpstream` sends on -/
+def forwardReq (r : Req) : Req := proxySend (removeConnectionOptions r.conn) r
 
-/-- the forwarding step cannot change the endpoint: the TCP route reads the path; the HTTP
-route reads `x-piko-endpoint`, which survives unless `Connection` names it (and it is set) -/
-def Req.keepsEndpoint (r : Req) : Bool :=
-  match r.kind with
-  | .tcp _ => true
-  | .http => !r.conn.contains epName || hdrGet r.epHeader == ""
+/-- `ServeHTTPWithUpstream` before the repair 1c64d44 (kept for the regression lemma
+`forwardReqUnrepaired_loses_marker`; not used by `handle`) -/
+def forwardReqUnrepaired (r : Req) : Req := proxySend r.conn r
 
 /-- what one handler invocation does -/
 inductive Step
@@ -176,8 +178,8 @@ def routeAt (lib : Lib) : Nat → World → String → Req → List Nat → Resu
             let (res, w'') := routeAt lib fuel w' k r' choices.tail
             ({ visited := n :: res.visited, via := (n, c.id) :: res.via, outcome := res.outcome }, w'')
 
-/-- enough fuel for every request (see `C06_two_hops_any_request`) -/
-def routeFuel : Nat := 4
+/-- enough fuel for every request (`C06_one_hop`: two handler invocations suffice) -/
+def routeFuel : Nat := 3
 
 /-- a client request `r` entering the cluster at node `entry` -/
 def route (lib : Lib) (w : World) (entry : String) (r : Req) (choices : List Nat) : Result × World :=
